@@ -273,7 +273,7 @@ static ListColumn ratio_column = {
 
 static void method_crc_column_print(LHAFileHeader *header)
 {
-	printf("%-5s %04x", header->compress_method, header->crc);
+	safe_printf("%-5s %04x", header->compress_method, header->crc);
 }
 
 static ListColumn method_crc_column = {
